@@ -425,7 +425,8 @@ def write_baseline(pid):
             continue
         task_seconds[f"{job[1]}@{job[2]}"] = round(res.get('seconds', 0), 1)
         names = sorted({r['name'] for r in res['results'] if r['status'] == 'proved' and pid in r.get('props', [])})
-        tasks[f"{res['contract']}@{res['cls']}"] = names
+        key = f"{res['contract']}@{res['cls']}"      # variants of one function (…@late) share the key: union
+        tasks[key] = sorted(set(tasks.get(key, [])) | set(names))
         allnames += names
     d = os.path.join(HERE, 'baseline')
     os.makedirs(d, exist_ok=True)
